@@ -269,7 +269,11 @@ class AppCfgMgr:
 
         for container in configured:
             appname = appcfg.app_name(container)
-            if os.path.exists(os.path.join(self.tm_env.running_dir, appname)):
+            running_link = os.path.join(self.tm_env.running_dir, appname)
+            if (os.path.exists(running_link) and
+                    os.path.basename(
+                        self._resolve_running_link(running_link)
+                    ) == container):
                 # App already running.. check if in cache.
                 # No need to check if needs cleanup as that is handled
                 if appname not in cached or cached[appname] != container:
